@@ -469,7 +469,7 @@ KV_PIECES = [
     '[a]', '[!a]', '[]', '[!x]', '[x]', '[$WIN32]', '[!$X360]', '[ a ]', '{', '}', '{', '}', '\n', '\n', '\n', '\r\n', '\r', ' ', ' ', '\t',
     '// c\n', '//\n', '#base', '#include',
 ]
-KV_ROUGH = ['"', '\\', '/', '/*', '*/', '[', ']', '(', ')', '(a)', '=', ',', ':', '+', "'", ';', '﻿', '[a\n]', '[[', '"abc', '\x00', 'é']
+KV_ROUGH = ['"', '\\', '/', '/*', '*/', '[', ']', '(', ')', '(a)', '=', ',', ':', '+', "'", ';', '﻿', '[a\n]', '[[', '"abc', '\x00', 'é', '"{args}"', '"{}"', '"{0}"', '"}{"', '"{"', '"%s"', '"{a!r}"', '[ok}]', '[{}]', '{}', '%d']
 FLAG_SETS = [None, {'a': True}, {'a': False, 'x': True}, {'win32': False, 'x360': True}]
 PARSE_BOOLS = ['newline_keys', 'newline_values', 'allow_escapes', 'single_line', 'single_block']
 
